@@ -164,131 +164,324 @@ Proof.
   - destruct H as [_ H]. eauto.
 Qed.
 
-(* ---------------------------------------------------------------- the variables of a thread *)
-Definition lenv (l : list (N * aval)) : list (N * value) :=
-  map (fun xv => (fst xv, load_val (snd xv))) l.
+(* ---------------------------------------------------------------- writing values *)
+Lemma save_val_scal f hp sc cnt seen : save_val f hp (VScal sc) cnt seen = Some (AScal sc, cnt, seen).
+Proof. destruct f; reflexivity. Qed.
 
-Lemma save_vars_spec : forall vars heap cnt seen l c sn,
-  save_vars vars heap cnt seen = (l, c, sn) ->
-  (forall r i, In (r, i) seen -> i <= cnt) -> pbij seen ->
-  cnt <= c /\ incl seen sn /\ (forall r i, In (r, i) sn -> i <= c) /\ pbij sn /\
-  env_rel sn vars (lenv l) /\
-  (forall r i, In (r, i) sn -> In (r, i) seen \/
-     (cnt < i /\ heap_get i (load_heap l) = heap_get r heap /\ exists x, In (x, VArr r) vars)) /\
-  (forall i o, In (i, o) (load_heap l) -> cnt < i).
+Definition save_ref (f : nat) (hp : list (N * holder)) (con : bool) (r : N) (cnt : N) (seen : list (N * N)) : sres aval :=
+  match assoc r seen with
+  | Some i => Some (APtr con i, cnt, seen)
+  | None =>
+      match f with
+      | O => None
+      | S f' =>
+          match save_hold (save_val f' hp) (heap_get r hp) (cnt + 1) ((r, cnt + 1) :: seen) with
+          | Some (al, c, sn) => Some (ANew con (cnt + 1) al, c, sn)
+          | None => None
+          end
+      end
+  end.
+
+Lemma save_val_arr f hp r cnt seen : save_val f hp (VArr r) cnt seen = save_ref f hp false r cnt seen.
+Proof. destruct f; reflexivity. Qed.
+
+Lemma save_val_con f hp r cnt seen : save_val f hp (VCon r) cnt seen = save_ref f hp true r cnt seen.
+Proof. destruct f; reflexivity. Qed.
+
+Lemma assoc_none_fst r l : assoc r l = None -> ~ In r (map fst l).
 Proof.
-  induction vars as [|[x v] vars IH]; intros heap cnt seen l c sn Hs Hle Hb.
-  - cbn in Hs. inversion Hs; subst.
-    split; [lia|]. split; [apply incl_refl|]. split; [exact Hle|]. split; [exact Hb|].
-    split; [constructor|]. split; [intros r i Hin; now left | intros i o []].
-  - cbn in Hs. destruct v as [sc|r].
-    + destruct (save_vars vars heap cnt seen) as [[l' c'] sn'] eqn:E. inversion Hs; subst.
-      destruct (IH heap cnt seen l' c sn E Hle Hb) as (H1 & H2 & H3 & H4 & H5 & H6 & H7).
-      split; [exact H1|]. split; [exact H2|]. split; [exact H3|]. split; [exact H4|].
-      split; [|split].
-      * constructor; [split; reflexivity|exact H5].
-      * intros r i Hin. destruct (H6 r i Hin) as [Hl|(Ha & Hc & y & Hy)]; [now left|right].
-        split; [exact Ha|]. split; [exact Hc|]. exists y. now right.
-      * exact H7.
-    + destruct (assoc r seen) as [i0|] eqn:Ea.
-      * destruct (save_vars vars heap cnt seen) as [[l' c'] sn'] eqn:E. inversion Hs; subst.
-        destruct (IH heap cnt seen l' c sn E Hle Hb) as (H1 & H2 & H3 & H4 & H5 & H6 & H7).
-        split; [exact H1|]. split; [exact H2|]. split; [exact H3|]. split; [exact H4|].
-        split; [|split].
-        -- constructor; [split; [reflexivity|]|exact H5]. cbn. apply H2. now apply assoc_some.
-        -- intros q i Hin. destruct (H6 q i Hin) as [Hl|(Ha & Hc & y & Hy)]; [now left|right].
-           split; [exact Ha|]. split; [exact Hc|]. exists y. now right.
-        -- exact H7.
-      * destruct (save_vars vars heap (cnt + 1) ((r, cnt + 1) :: seen)) as [[l' c'] sn'] eqn:E.
-        inversion Hs; subst.
-        assert (Hle' : forall q i, In (q, i) ((r, cnt + 1) :: seen) -> i <= cnt + 1).
-        { intros q i [Eq|Hin]; [inversion Eq; lia|]. apply Hle in Hin. lia. }
-        assert (Hb' : pbij ((r, cnt + 1) :: seen)).
-        { apply pbij_cons; auto. intros a b Hin. split.
-          - intro; subst. now apply (assoc_none _ _ Ea b).
-          - apply Hle in Hin. lia. }
-        destruct (IH heap (cnt + 1) _ l' c sn E Hle' Hb') as (H1 & H2 & H3 & H4 & H5 & H6 & H7).
-        split; [lia|]. split; [intros p Hp; apply H2; now right|]. split; [exact H3|]. split; [exact H4|].
-        split; [|split].
-        -- constructor; [split; [reflexivity|]|exact H5]. cbn. apply H2. now left.
-        -- intros q i Hin. destruct (H6 q i Hin) as [[Eq|Hl]|(Ha & Hc & y & Hy)].
-           ++ inversion Eq; subst. right. split; [lia|]. split.
-              ** cbn. now rewrite N.eqb_refl.
-              ** exists x. now left.
-           ++ now left.
-           ++ right. split; [lia|]. split.
-              ** cbn. destruct (N.eqb_spec i (cnt + 1)); [lia|exact Hc].
-              ** exists y. now right.
-        -- intros i o [Eq|Hin]; [inversion Eq; lia|]. apply H7 in Hin. lia.
+  induction l as [|[a b] l IH]; cbn; [tauto|].
+  destruct (N.eqb_spec r a) as [->|Hn]; [discriminate|]. intros H [E|Hin]; [congruence|]. now apply IH.
 Qed.
 
-Lemma save_thread_spec t cnt a c1 :
-  thr_ok t -> save_thread t cnt = (a, c1) ->
-  cnt < c1 /\ a_pos a = c1 /\ a_code a = tcode t /\
-  forall nc, c1 <= nc ->
-    data_rel (tenv t) (theap t) (tnext t)
-             (tenv (load_thread nc a)) (theap (load_thread nc a)) (tnext (load_thread nc a)).
+Lemma pigeon (l : list N) (B : N) :
+  NoDup l -> (forall x, In x l -> x < B) -> (length l <= N.to_nat B)%nat.
 Proof.
-  intros Hok Hs. unfold save_thread in Hs.
-  destruct (save_vars (tenv t) (theap t) cnt []) as [[l c] sn] eqn:E. inversion Hs; subst. clear Hs.
-  destruct (save_vars_spec _ _ _ _ _ _ _ E) as (H1 & H2 & H3 & H4 & H5 & H6 & H7).
-  { intros ? ? []. } { intros ? ? ? ? []. }
-  cbn. split; [lia|]. split; [reflexivity|]. split; [reflexivity|].
-  intros nc Hnc. apply (data_rel_intro sn); auto.
-  - intros r i Hin. destruct (H6 r i Hin) as [[]|(Ha & Hc & _)]. now rewrite Hc.
-  - intros r i Hin. split.
-    + destruct (H6 r i Hin) as [[]|(_ & _ & y & Hy)]. eapply Hok; eauto.
-    + apply H3 in Hin. lia.
+  intros Hnd Hlt.
+  assert (Hincl : incl l (map N.of_nat (seq 0 (N.to_nat B)))).
+  { intros x Hx. apply in_map_iff. exists (N.to_nat x). split; [apply N2Nat.id|].
+    apply in_seq. apply Hlt in Hx. lia. }
+  pose proof (NoDup_incl_length Hnd Hincl) as H. now rewrite map_length, seq_length in H.
 Qed.
 
-(* ---------------------------------------------------------------- chains and instances *)
-Definition Q (es : list elem) (h : N) (a : athread) : Prop :=
-  exists t k, find_thread h es = Some t /\ save_thread t k = (a, a_pos a) /\ k < a_pos a.
-
-Lemma save_chain_ok : forall c es cnt hm,
-  (forall h, In h c -> exists t, find_thread h es = Some t /\ thr_ok t) ->
-  exists l c2, save_chain c es cnt hm = Some (l, c2, rev (combine c (map a_pos l)) ++ hm) /\
-    Forall2 (Q es) c l /\ incr cnt (map a_pos l) c2.
+Lemma incr_hi lo l hi hi' : hi <= hi' -> incr lo l hi -> incr lo l hi'.
 Proof.
-  induction c as [|h c IH]; intros es cnt hm Hf.
-  - exists [], cnt. cbn. repeat split; [constructor|lia].
-  - destruct (Hf h (or_introl eq_refl)) as (t & Ht & Hok). cbn. rewrite Ht.
-    destruct (save_thread t cnt) as [a c1] eqn:Es.
-    destruct (save_thread_spec t cnt a c1 Hok Es) as (Hlt & Hpos & _).
-    destruct (IH es c1 ((h, c1) :: hm)) as (l & c2 & Hsc & Hq & Hi).
-    { intros h' Hin. apply Hf. now right. }
-    rewrite Hsc. exists (a :: l), c2. split; [|split].
-    + cbn. rewrite Hpos. rewrite <- app_assoc. reflexivity.
-    + constructor; [|exact Hq]. exists t, cnt. rewrite Hpos. auto.
-    + cbn. rewrite Hpos. split; auto.
+  revert lo. induction l as [|x l IH]; cbn; intros lo Hle H; [lia|]. destruct H. split; auto.
 Qed.
 
+Lemma heap_get_in i ol (H : list (N * holder)) : NoDup (map fst H) -> In (i, ol) H -> heap_get i H = ol.
+Proof.
+  induction H as [|[q o] H IH]; cbn; [tauto|]. intros Hnd [E|Hin].
+  - inversion E; subst. now rewrite N.eqb_refl.
+  - inversion Hnd; subst. destruct (N.eqb_spec i q) as [->|Hn]; [|auto].
+    exfalso. apply H2. change q with (fst (q, ol)). now apply in_map.
+Qed.
+
+Section Writer.
+Variable hp : list (N * holder).
+Variable B : N.
+Hypothesis Hhp : heap_ok hp B.
+
+Definition Pre (cnt : N) (seen : list (N * N)) : Prop :=
+  (forall r i, In (r, i) seen -> i <= cnt) /\ pbij seen /\ NoDup (map fst seen) /\
+  (forall r i, In (r, i) seen -> r < B).
+
+(* what one call of the writer guarantees: HP = the holders the reader will create for it *)
+Definition G (cnt : N) (seen : list (N * N)) (c : N) (sn : list (N * N)) (HP : list (N * holder)) : Prop :=
+  cnt <= c /\ (exists new, sn = new ++ seen) /\ Pre c sn /\ incr cnt (map fst HP) c /\
+  (forall r i, In (r, i) sn ->
+     In (r, i) seen \/ exists ol, In (i, ol) HP /\ holder_rel sn (heap_get r hp) ol) /\
+  (forall i ol, In (i, ol) HP -> exists r, In (r, i) sn).
+
+Definition fc (f : nat) (seen : list (N * N)) : Prop := (N.to_nat B + 1 <= f + length seen)%nat.
+
+Lemma Pre_le cnt c seen : cnt <= c -> Pre cnt seen -> Pre c seen.
+Proof.
+  intros Hle (H1 & H2 & H3 & H4). split; [|split; [|split]]; auto.
+  intros r i Hin. apply H1 in Hin. lia.
+Qed.
+
+Lemma G_refl cnt seen : Pre cnt seen -> G cnt seen cnt seen [].
+Proof.
+  intro Hp. split; [lia|]. split; [now exists []|]. split; [exact Hp|]. split; [cbn; lia|].
+  split; [intros r i Hin; now left | intros i ol []].
+Qed.
+
+Lemma G_pre cnt seen c sn HP : G cnt seen c sn HP -> Pre c sn.
+Proof. intros (_ & _ & H & _). exact H. Qed.
+
+Lemma G_incl cnt seen c sn HP : G cnt seen c sn HP -> incl seen sn.
+Proof. intros (_ & (new & ->) & _). intros x Hx. apply in_or_app. now right. Qed.
+
+Lemma G_bump cnt seen c sn HP c' : c <= c' -> G cnt seen c sn HP -> G cnt seen c' sn HP.
+Proof.
+  intros Hle (H1 & H2 & H3 & H4 & H5). split; [lia|]. split; [exact H2|].
+  split; [eapply Pre_le; eauto|]. split; [eapply incr_hi; eauto|exact H5].
+Qed.
+
+Lemma G_trans cnt seen c1 s1 HP1 c2 s2 HP2 :
+  G cnt seen c1 s1 HP1 -> G c1 s1 c2 s2 HP2 -> G cnt seen c2 s2 (HP1 ++ HP2).
+Proof.
+  intros (A1 & (n1 & ->) & A3 & A4 & A5 & A6) (B1 & (n2 & ->) & B3 & B4 & B5 & B6).
+  split; [lia|]. split; [exists (n2 ++ n1); now rewrite app_assoc|]. split; [exact B3|].
+  split; [|split].
+  - rewrite map_app. eapply incr_app; eauto.
+  - intros r i Hin. destruct (B5 r i Hin) as [Hs1|(ol & Hol & Hr)].
+    + destruct (A5 r i Hs1) as [Hs|(ol & Hol & Hr)]; [now left|right].
+      exists ol. split; [apply in_or_app; now left|].
+      eapply holder_rel_mono; [|exact Hr]. intros x Hx. apply in_or_app. now right.
+    + right. exists ol. split; [apply in_or_app; now right|exact Hr].
+  - intros i ol Hin. apply in_app_or in Hin. destruct Hin as [Hin|Hin].
+    + destruct (A6 i ol Hin) as [r Hr]. exists r. apply in_or_app. now right.
+    + eapply B6; eauto.
+Qed.
+
+Lemma fc_app f seen new : fc f seen -> fc f (new ++ seen).
+Proof. unfold fc. rewrite app_length. lia. Qed.
+
+Definition hold_ok (o : holder) : Prop := forall k v, In (k, v) o -> ref_lt v B.
+
+(* the entries of a holder, given a correct writer for single values *)
+Lemma save_hold_ok (sv : value -> N -> list (N * N) -> sres aval) (fcond : list (N * N) -> Prop) :
+  (forall seen new, fcond seen -> fcond (new ++ seen)) ->
+  (forall v cnt seen, Pre cnt seen -> ref_lt v B -> fcond seen ->
+     exists av c sn, sv v cnt seen = Some (av, c, sn) /\ G cnt seen c sn (collect av) /\ vrel sn v (load_val av)) ->
+  forall o cnt seen, Pre cnt seen -> hold_ok o -> fcond seen ->
+    exists al c sn, save_hold sv o cnt seen = Some (al, c, sn) /\ G cnt seen c sn (collect_l al) /\
+                    holder_rel sn o (load_hold al).
+Proof.
+  intros Hmono Hsv. induction o as [|[k v] o IH]; intros cnt seen Hp Ho Hf.
+  - exists ANil, cnt, seen. split; [reflexivity|]. split; [now apply G_refl|constructor].
+  - destruct (Hsv v cnt seen Hp) as (av & c1 & s1 & E1 & G1 & V1); [apply (Ho k v); now left|exact Hf|].
+    destruct (IH c1 s1) as (al & c2 & s2 & E2 & G2 & R2).
+    + eapply G_pre; eauto.
+    + intros j w Hin. apply (Ho j w). now right.
+    + destruct G1 as (_ & (new & ->) & _). now apply Hmono.
+    + exists (ACons k av al), c2, s2. cbn. rewrite E1, E2. split; [reflexivity|]. split.
+      * eapply G_trans; eauto.
+      * constructor; [|exact R2]. split; [reflexivity|]. cbn.
+        eapply vrel_mono; [|exact V1]. eapply G_incl; eauto.
+Qed.
+
+Lemma save_ref_ok f :
+  (forall v cnt seen, Pre cnt seen -> ref_lt v B -> fc f seen ->
+     exists av c sn, save_val f hp v cnt seen = Some (av, c, sn) /\ G cnt seen c sn (collect av) /\ vrel sn v (load_val av)) ->
+  forall con r cnt seen, Pre cnt seen -> r < B -> fc (S f) seen ->
+    exists av c sn, save_ref (S f) hp con r cnt seen = Some (av, c, sn) /\ G cnt seen c sn (collect av) /\
+      In (r, match av with ANew _ i _ | APtr _ i => i | AScal _ => 0 end) sn /\
+      (match av with ANew b _ _ | APtr b _ => b = con | AScal _ => False end).
+Proof.
+  intros IH con r cnt seen Hp Hr Hf. unfold save_ref.
+  destruct (assoc r seen) as [i|] eqn:Ea.
+  - exists (APtr con i), cnt, seen. split; [reflexivity|]. split; [now apply G_refl|].
+    split; [now apply assoc_some|reflexivity].
+  - pose proof Hp as (P1 & P2 & P3 & P4).
+    set (i := cnt + 1). set (seen1 := (r, i) :: seen).
+    assert (Hp1 : Pre i seen1).
+    { split; [|split; [|split]].
+      - intros q j [E|Hin]; [inversion E; lia|]. apply P1 in Hin. unfold i. lia.
+      - apply pbij_cons; auto. intros a b Hin. split.
+        + intro; subst. now apply (assoc_none _ _ Ea b).
+        + apply P1 in Hin. unfold i. lia.
+      - cbn. constructor; [now apply assoc_none_fst|exact P3].
+      - intros q j [E|Hin]; [inversion E; subst; exact Hr|]. eapply P4; eauto. }
+    assert (Hf1 : fc f seen1) by (unfold fc in *; cbn; lia).
+    destruct (save_hold_ok (save_val f hp) (fc f) (fun s n H => fc_app f s n H) IH (heap_get r hp) i seen1 Hp1)
+      as (al & c & sn & E & Gh & Rh); [intros k v; apply Hhp|exact Hf1|].
+    fold i. fold seen1. rewrite E.
+    exists (ANew con i al), c, sn. split; [reflexivity|].
+    pose proof Gh as (A1 & (new & Hnew) & A3 & A4 & A5 & A6).
+    assert (Hri : In (r, i) sn) by (rewrite Hnew; apply in_or_app; right; now left).
+    split; [|split; [|reflexivity]].
+    + split; [unfold i in *; lia|]. split; [exists (new ++ [(r, i)]); rewrite Hnew; unfold seen1; now rewrite <- app_assoc|].
+      split; [exact A3|]. split; [|split].
+      * cbn. split; [unfold i; lia|exact A4].
+      * intros q j Hin. destruct (A5 q j Hin) as [[E1|Hs]|(ol & Hol & Hr')].
+        -- inversion E1; subst. right. exists (load_hold al). split; [now left|exact Rh].
+        -- now left.
+        -- right. exists ol. split; [now right|exact Hr'].
+      * intros j ol [E1|Hin]; [inversion E1; subst; now exists r | eapply A6; eauto].
+    + exact Hri.
+Qed.
+
+Lemma save_val_ok : forall f v cnt seen, Pre cnt seen -> ref_lt v B -> fc f seen ->
+  exists av c sn, save_val f hp v cnt seen = Some (av, c, sn) /\ G cnt seen c sn (collect av) /\
+                  vrel sn v (load_val av).
+Proof.
+  induction f as [|f IH]; intros v cnt seen Hp Hv Hf.
+  - (* no fuel: only possible when every holder identity is already written *)
+    destruct v as [sc|r|r].
+    + exists (AScal sc), cnt, seen. split; [apply save_val_scal|]. split; [now apply G_refl|reflexivity].
+    + rewrite save_val_arr. unfold save_ref. destruct (assoc r seen) as [i|] eqn:Ea.
+      * exists (APtr false i), cnt, seen. split; [reflexivity|]. split; [now apply G_refl|]. cbn. now apply assoc_some.
+      * exfalso. destruct Hp as (_ & _ & P3 & P4).
+        assert (Hnd : NoDup (r :: map fst seen)) by (constructor; [now apply assoc_none_fst|exact P3]).
+        pose proof (pigeon _ B Hnd) as Hpg. cbn in Hpg. rewrite map_length in Hpg. unfold fc in Hf.
+        assert (length seen + 1 <= N.to_nat B)%nat; [|lia].
+        rewrite Nat.add_1_r. apply Hpg. intros x [<-|Hx]; [exact Hv|].
+        apply in_map_iff in Hx. destruct Hx as ([a b] & <- & Hin). eapply P4; eauto.
+    + rewrite save_val_con. unfold save_ref. destruct (assoc r seen) as [i|] eqn:Ea.
+      * exists (APtr true i), cnt, seen. split; [reflexivity|]. split; [now apply G_refl|]. cbn. now apply assoc_some.
+      * exfalso. destruct Hp as (_ & _ & P3 & P4).
+        assert (Hnd : NoDup (r :: map fst seen)) by (constructor; [now apply assoc_none_fst|exact P3]).
+        pose proof (pigeon _ B Hnd) as Hpg. cbn in Hpg. rewrite map_length in Hpg. unfold fc in Hf.
+        assert (length seen + 1 <= N.to_nat B)%nat; [|lia].
+        rewrite Nat.add_1_r. apply Hpg. intros x [<-|Hx]; [exact Hv|].
+        apply in_map_iff in Hx. destruct Hx as ([a b] & <- & Hin). eapply P4; eauto.
+  - destruct v as [sc|r|r].
+    + exists (AScal sc), cnt, seen. split; [apply save_val_scal|]. split; [now apply G_refl|reflexivity].
+    + rewrite save_val_arr.
+      destruct (save_ref_ok f IH false r cnt seen Hp Hv Hf) as (av & c & sn & E & Gv & Hin & Hk).
+      exists av, c, sn. split; [exact E|]. split; [exact Gv|].
+      destruct av as [|b i al|b i]; cbn in *; try contradiction; subst b; exact Hin.
+    + rewrite save_val_con.
+      destruct (save_ref_ok f IH true r cnt seen Hp Hv Hf) as (av & c & sn & E & Gv & Hin & Hk).
+      exists av, c, sn. split; [exact E|]. split; [exact Gv|].
+      destruct av as [|b i al|b i]; cbn in *; try contradiction; subst b; exact Hin.
+Qed.
+
+(* ---------------------------------------------------------------- threads, chains, instances *)
+Lemma env_holder_rel m e o : holder_rel m (env_holder e) o -> env_rel m e (holder_env o).
+Proof.
+  revert o. induction e as [|[x v] e IH]; intros o H; inversion H as [|a b l1 l2 [Hf Hv] Hr]; subst; cbn.
+  - constructor.
+  - constructor; [|now apply IH]. cbn in *. split; [|exact Hv]. rewrite <- Hf. now rewrite N2Z.id.
+Qed.
+
+Lemma env_holder_ok e : env_ok e B -> hold_ok (env_holder e).
+Proof.
+  intros Hok k v Hin. unfold env_holder in Hin. apply in_map_iff in Hin.
+  destruct Hin as ([x w] & E & Hin). inversion E; subst. eapply Hok; eauto.
+Qed.
+
+Lemma save_thread_ok f t cnt seen :
+  Pre cnt seen -> env_ok (tenv t) B -> fc f seen ->
+  exists a c sn, save_thread f hp t cnt seen = Some (a, c, sn) /\ G cnt seen c sn (collect_l (a_vars a)) /\
+    a_pos a = c /\ cnt < c /\ a_code a = tcode t /\ env_rel sn (tenv t) (tenv (load_thread a)).
+Proof.
+  intros Hp Hok Hf. unfold save_thread.
+  destruct (save_hold_ok (save_val f hp) (fc f) (fun s n H => fc_app f s n H) (save_val_ok f)
+                         (env_holder (tenv t)) cnt seen Hp (env_holder_ok _ Hok) Hf) as (al & c & sn & E & Gh & Rh).
+  rewrite E. exists (mkAThr al (c + 1) (tcode t)), (c + 1), sn. split; [reflexivity|]. cbn.
+  split; [eapply G_bump; [|exact Gh]; lia|]. split; [reflexivity|].
+  split; [destruct Gh as (H & _); lia|]. split; [reflexivity|]. now apply env_holder_rel.
+Qed.
+
+Definition Qr (es : list elem) (sn : list (N * N)) (h : N) (a : athread) : Prop :=
+  exists t, find_thread h es = Some t /\ a_code a = tcode t /\ env_rel sn (tenv t) (tenv (load_thread a)).
+
+Lemma Qr_mono es sn sn' c l : incl sn sn' -> Forall2 (Qr es sn) c l -> Forall2 (Qr es sn') c l.
+Proof.
+  intros Hi H. eapply Forall2_impl; [|exact H]. intros h a (t & H1 & H2 & H3).
+  exists t. split; [exact H1|]. split; [exact H2|]. eapply env_rel_mono; eauto.
+Qed.
+
+Definition heap_of (l : list athread) : list (N * holder) := concat (map (fun x => collect_l (a_vars x)) l).
+
+Lemma save_chain_ok f es : forall c cnt seen hm,
+  Pre cnt seen -> fc f seen ->
+  (forall h, In h c -> exists t, find_thread h es = Some t /\ env_ok (tenv t) B) ->
+  exists l c2 s2, save_chain f hp c es cnt seen hm = Some (l, c2, s2, rev (combine c (map a_pos l)) ++ hm) /\
+    G cnt seen c2 s2 (heap_of l) /\ Forall2 (Qr es s2) c l /\ incr cnt (map a_pos l) c2.
+Proof.
+  induction c as [|h c IH]; intros cnt seen hm Hp Hf Hfind.
+  - exists [], cnt, seen. cbn. split; [reflexivity|]. split; [now apply G_refl|]. split; [constructor|lia].
+  - destruct (Hfind h (or_introl eq_refl)) as (t & Ht & Hok). cbn. rewrite Ht.
+    destruct (save_thread_ok f t cnt seen Hp Hok Hf) as (a & c1 & s1 & E1 & G1 & Hpos & Hlt & Hcode & Henv).
+    rewrite E1.
+    destruct (IH c1 s1 ((h, c1) :: hm)) as (l & c2 & s2 & E2 & G2 & Q2 & I2).
+    + eapply G_pre; eauto.
+    + destruct G1 as (_ & (new & ->) & _). now apply fc_app.
+    + intros h' Hin. apply Hfind. now right.
+    + rewrite E2. exists (a :: l), c2, s2. split; [|split; [|split]].
+      * cbn. rewrite Hpos. rewrite <- app_assoc. reflexivity.
+      * unfold heap_of. cbn. eapply G_trans; eauto.
+      * constructor; [|exact Q2]. exists t. split; [exact Ht|]. split; [exact Hcode|].
+        eapply env_rel_mono; [|exact Henv]. eapply G_incl; eauto.
+      * cbn. rewrite Hpos. split; auto.
+Qed.
+
+Definition all_at (l : list ainst) : list athread := concat (map ai_threads l).
 Definition allpos (l : list ainst) : list N := concat (map (fun ai => map a_pos (ai_threads ai)) l).
 
-Lemma save_insts_ok : forall i es cnt hm,
-  (forall h, In h (concat i) -> exists t, find_thread h es = Some t /\ thr_ok t) ->
-  exists l c2, save_insts i es cnt hm = Some (l, c2, rev (combine (concat i) (allpos l)) ++ hm) /\
-    Forall2 (fun c ai => Forall2 (Q es) c (ai_threads ai)) i l /\ incr cnt (allpos l) c2.
+Lemma heap_of_app l1 l2 : heap_of (l1 ++ l2) = heap_of l1 ++ heap_of l2.
+Proof. unfold heap_of. now rewrite map_app, concat_app. Qed.
+
+Lemma save_insts_ok f es : forall i cnt seen hm,
+  Pre cnt seen -> fc f seen ->
+  (forall h, In h (concat i) -> exists t, find_thread h es = Some t /\ env_ok (tenv t) B) ->
+  exists l c2 s2, save_insts f hp i es cnt seen hm = Some (l, c2, s2, rev (combine (concat i) (allpos l)) ++ hm) /\
+    G cnt seen c2 s2 (heap_of (all_at l)) /\
+    Forall2 (fun c ai => Forall2 (Qr es s2) c (ai_threads ai)) i l /\ incr cnt (allpos l) c2.
 Proof.
-  induction i as [|c i IH]; intros es cnt hm Hf.
-  - exists [], cnt. cbn. repeat split; [constructor|lia].
+  induction i as [|c i IH]; intros cnt seen hm Hp Hf Hfind.
+  - exists [], cnt, seen. cbn. split; [reflexivity|]. split; [now apply G_refl|]. split; [constructor|lia].
   - cbn.
-    destruct (save_chain_ok c es (cnt + 1) hm) as (ts & c1 & Hsc & Hq & Hi).
-    { intros h Hin. apply Hf. cbn. apply in_or_app. now left. }
-    rewrite Hsc.
-    destruct (IH es c1 (rev (combine c (map a_pos ts)) ++ hm)) as (l & c2 & Hsi & Hq2 & Hi2).
-    { intros h Hin. apply Hf. cbn. apply in_or_app. now right. }
-    rewrite Hsi. exists (mkAInst (cnt + 1) ts :: l), c2. split; [|split].
+    destruct (save_chain_ok f es c (cnt + 1) seen hm) as (ts & c1 & s1 & E1 & G1 & Q1 & I1).
+    { eapply Pre_le; [|exact Hp]. lia. } { exact Hf. }
+    { intros h Hin. apply Hfind. cbn. apply in_or_app. now left. }
+    rewrite E1.
+    destruct (IH c1 s1 (rev (combine c (map a_pos ts)) ++ hm)) as (l & c2 & s2 & E2 & G2 & Q2 & I2).
+    { eapply G_pre; eauto. }
+    { destruct G1 as (_ & (new & ->) & _). now apply fc_app. }
+    { intros h Hin. apply Hfind. cbn. apply in_or_app. now right. }
+    rewrite E2. exists (mkAInst (cnt + 1) ts :: l), c2, s2. split; [|split; [|split]].
     + unfold allpos. cbn. fold (allpos l).
       rewrite combine_app by (rewrite map_length; eapply Forall2_len; eauto).
       rewrite rev_app_distr, <- app_assoc. reflexivity.
-    + constructor; auto.
-    + unfold allpos. cbn. fold (allpos l). eapply incr_app; [|exact Hi2].
-      eapply incr_lo; [|exact Hi]. lia.
+    + change (all_at (mkAInst (cnt + 1) ts :: l)) with (ts ++ all_at l). rewrite heap_of_app.
+      eapply G_trans; [|exact G2].
+      destruct G1 as (A1 & A2 & A3 & A4 & A5). split; [lia|]. split; [exact A2|]. split; [exact A3|].
+      split; [eapply incr_lo; [|exact A4]; lia|exact A5].
+    + constructor; [|exact Q2]. cbn. eapply Qr_mono; [|exact Q1]. eapply G_incl; eauto.
+    + unfold allpos. cbn. fold (allpos l). eapply incr_app; [|exact I2].
+      eapply incr_lo; [|exact I1]. lia.
 Qed.
 
-Lemma nested_in_combine es i l :
-  Forall2 (fun c ai => Forall2 (Q es) c (ai_threads ai)) i l ->
+End Writer.
+
+Lemma nested_in_combine {R : N -> athread -> Prop} i l :
+  Forall2 (fun c ai => Forall2 R c (ai_threads ai)) i l ->
   Forall2 (fun c ai => Forall2 (fun h a => In (h, a_pos a) (combine (concat i) (allpos l))) c (ai_threads ai)) i l.
 Proof.
   intro H. induction H as [|c ai i l Hc _ IH]; [constructor|].
@@ -364,24 +557,42 @@ Proof.
 Qed.
 
 (* ---------------------------------------------------------------- the theorem *)
-Theorem load_save_iso s :
-  wf s -> exists a s', save s = Some a /\ load a (reset s) = Some s' /\ iso s s'.
+Lemma holder_rel_ok m o ol n : holder_rel m o ol -> (forall r i, In (r, i) m -> i < n) -> forall k v, In (k, v) ol -> ref_lt v n.
 Proof.
-  intros (Hnd & Hperm & Hbnd & Hok).
-  set (H := concat (insts s)). set (es := elems s).
+  intros H Hb. induction H as [|[k1 v1] [k2 v2] l1 l2 [_ Hv] _ IH]; cbn; [tauto|].
+  intros k v [E|Hin]; [|eauto]. inversion E; subst. cbn in Hv.
+  destruct v1, v; cbn in *; try contradiction; auto; eapply Hb; eauto.
+Qed.
+
+Lemma heap_get_cases r (H : list (N * holder)) : heap_get r H = [] \/ In (r, heap_get r H) H.
+Proof.
+  induction H as [|[q o] H IH]; cbn; [now left|].
+  destruct (N.eqb_spec r q) as [->|Hn]; [right; now left|]. destruct IH; [now left|right; now right].
+Qed.
+
+Theorem load_save_iso s :
+  wf s -> exists a s', save s = Some a /\ load a (reset s) = Some s' /\ iso s s' /\
+                       heap_ok (heap s') (nextr s').
+Proof.
+  intros (Hnd & Hperm & Hbnd & Hok & Hhp).
+  set (H := concat (insts s)). set (es := elems s). set (B := nextr s). set (hp := heap s).
+  set (f := S (N.to_nat B)).
   assert (Hnde : NoDup (map eh es)) by (eapply Permutation_NoDup; eauto).
-  assert (Hfind : forall h, In h H -> exists t, find_thread h es = Some t /\ thr_ok t).
+  assert (Hfind : forall h, In h H -> exists t, find_thread h es = Some t /\ env_ok (tenv t) B).
   { intros h Hin. assert (Hin' : In h (map eh es)) by (eapply Permutation_in; eauto).
     destruct (find_thread_in h es Hin') as (e & He & Hf). exists (ethr e). split; auto.
     rewrite Forall_forall in Hok. now apply Hok. }
-  destruct (save_insts_ok (insts s) es 0 [] Hfind) as (ai & nc & Hsi & Hq & Hinc).
+  assert (Hpre0 : Pre B 0 []).
+  { split; [intros ? ? []|]. split; [intros ? ? ? ? []|]. split; [constructor|intros ? ? []]. }
+  assert (Hfc0 : fc B f []) by (unfold fc, f; cbn; lia).
+  destruct (save_insts_ok hp B Hhp f es (insts s) 0 [] [] Hpre0 Hfc0 Hfind) as (ai & nc & m & Hsi & HG & Hq & Hinc).
   rewrite app_nil_r in Hsi. fold H in Hsi.
   set (P := allpos ai) in *. set (hm := rev (combine H P)) in *.
-  set (AT := concat (map ai_threads ai)).
+  set (AT := all_at ai) in *.
   assert (HP : P = map a_pos AT).
-  { unfold P, allpos, AT. rewrite concat_map, map_map. reflexivity. }
-  assert (HQ : Forall2 (Q es) H AT).
-  { unfold H, AT. apply Forall2_concat.
+  { unfold P, allpos, AT, all_at. rewrite concat_map, map_map. reflexivity. }
+  assert (HQ : Forall2 (Qr es m) H AT).
+  { unfold H, AT, all_at. apply Forall2_concat.
     clear -Hq. induction Hq; cbn; constructor; auto. }
   assert (Hlen : length H = length P) by (rewrite HP, map_length; eapply Forall2_len; eauto).
   assert (HndP : NoDup P) by (eapply incr_nodup; eauto).
@@ -389,57 +600,67 @@ Proof.
   { intros h p Hin. apply assoc_nodup.
     - unfold hm. rewrite map_rev, map_fst_combine by exact Hlen. now apply NoDup_rev.
     - unfold hm. now apply -> in_rev. }
+  destruct HG as (_ & _ & (Pm1 & Pm2 & Pm3 & Pm4) & HincH & Hm5 & Hm6).
+  set (HPL := heap_of AT) in *.
   (* the timer elements are written *)
   destruct (save_elems_ok hm es) as (ae & Hse & Hae).
   { intros e Hin. assert (Hh : In (eh e) H).
     { eapply Permutation_in; [apply Permutation_sym; exact Hperm|]. now apply in_map. }
     destruct (in_combine_exists H P (eh e) Hlen Hh) as [p Hp]. exists p. now apply Hassoc. }
   (* loading *)
-  set (ts := concat (map (fun a => map (load_thread nc) (ai_threads a)) ai)).
-  assert (Hts : ts = map (load_thread nc) AT).
-  { unfold ts, AT. rewrite concat_map, map_map. reflexivity. }
+  set (ts := map load_thread AT).
   assert (Hth : map th ts = P).
-  { rewrite Hts, HP, map_map. apply map_ext. intros a. reflexivity. }
-  set (Pr := fun (e : elem) (x : thread) => thr_rel hm (ethr e) x).
+  { unfold ts. rewrite HP, map_map. apply map_ext. intros a. reflexivity. }
+  set (Pr := fun (e : elem) (x : thread) => thr_rel hm m (ethr e) x).
   destruct (load_elems_ok ts es ae Pr) as (es2 & Hle & Hes2).
   { eapply Forall2_impl_in; [|exact Hae]. cbn. intros e [p t] Hine [Ha Ht].
     cbn in Ha, Ht. split; [|exact Ht]. cbn.
     apply assoc_some in Ha. unfold hm in Ha. apply in_rev in Ha.
     rewrite HP in Ha. destruct (in_combine_map a_pos H AT (eh e) p Ha) as (a & Hina & Hpa).
-    pose proof (Forall2_in_combine _ _ _ _ _ HQ Hina) as (t0 & k & Hf & Hst & Hk).
+    pose proof (Forall2_in_combine _ _ _ _ _ HQ Hina) as (t0 & Hf & Hcode & Henv).
     rewrite (find_thread_nodup e es Hnde Hine) in Hf. inversion Hf; subst t0. clear Hf.
-    exists (load_thread nc a). split.
-    + assert (Hin_ts : In (load_thread nc a) ts).
-      { rewrite Hts. apply in_map. eapply in_combine_r; eauto. }
-      pose proof (find_loaded_ok (load_thread nc a) ts) as Hfl. cbn in Hfl. rewrite Hpa in Hfl.
+    exists (load_thread a). split.
+    + assert (Hin_ts : In (load_thread a) ts).
+      { unfold ts. apply in_map. eapply in_combine_r; eauto. }
+      pose proof (find_loaded_ok (load_thread a) ts) as Hfl. cbn in Hfl. rewrite Hpa in Hfl.
       apply Hfl; auto. rewrite Hth. exact HndP.
-    + unfold Pr. assert (Hoke : thr_ok (ethr e)).
-      { rewrite Forall_forall in Hok. now apply Hok. }
-      destruct (save_thread_spec (ethr e) k a (a_pos a) Hoke Hst) as (_ & _ & Hcode & Hdata).
-      split; [|split].
-      * cbn. unfold hm. apply -> in_rev. rewrite HP. rewrite Hpa.
-        rewrite <- Hpa. apply (in_combine_map' a_pos H AT (eh e) a Hina).
+    + unfold Pr. split; [|split].
+      * cbn. unfold hm. apply -> in_rev. rewrite HP.
+        apply (in_combine_map' a_pos H AT (eh e) a Hina).
       * cbn. now rewrite Hcode.
-      * apply Hdata. assert (Hinp : In (a_pos a) P).
-        { rewrite HP. apply in_map. eapply in_combine_r; eauto. }
-        pose proof (incr_range _ _ _ _ Hinc Hinp). lia. }
+      * exact Henv. }
   exists (mkArc nc ai (dirty s) (mtime s) ae).
-  exists (mkSt es2 (rev (map (fun a => map a_pos (ai_threads a)) ai)) (mtime s) (dirty s)
-               (scaled s) (lastclk s) (startclk s) (clock s) (nc + 1)).
-  split; [|split].
-  - unfold save. fold es. rewrite Hsi. fold hm. rewrite Hse. reflexivity.
-  - unfold load. cbn. fold ts. rewrite Hle. reflexivity.
-  - exists hm. srel.
+  exists (mkSt es2 (rev (map (fun a => map a_pos (ai_threads a)) ai)) HPL (mtime s) (dirty s)
+               (scaled s) (lastclk s) (startclk s) (clock s) (nc + 1) (nc + 1)).
+  split; [|split; [|split]].
+  - unfold save. fold B f hp es. rewrite Hsi. fold hm. rewrite Hse. reflexivity.
+  - unfold load, all_athreads. cbn [a_nclasses a_insts a_dirty a_mtime a_elems reset scaled lastclk startclk clock].
+    fold (all_at ai). fold AT. fold ts. rewrite Hle. reflexivity.
+  - exists hm, m. srel.
     + eapply Forall2_impl; [|exact Hes2]. cbn. intros e e2 [Ht Hr]. split; auto.
     + exists (rev (insts s)). split; [apply Permutation_rev|].
       apply Forall2_rev.
-      apply chains_of. pose proof (nested_in_combine es (insts s) ai Hq) as Hn.
+      apply chains_of. pose proof (nested_in_combine (insts s) ai Hq) as Hn.
       fold H in Hn. fold P in Hn.
       eapply Forall2_impl; [|exact Hn]. cbn. intros c a Hc.
       eapply Forall2_impl; [|exact Hc]. cbn. intros h x Hin. unfold hm. now apply -> in_rev.
+    + (* the holders *)
+      intros r i Hin. destruct (Hm5 r i Hin) as [[]|(ol & Hol & Hr)].
+      rewrite (heap_get_in i ol HPL); [exact Hr| |exact Hol].
+      eapply incr_nodup; eauto.
     + eapply pbij_incl; [|apply (pbij_combine H P Hnd HndP)].
       intros x Hx. unfold hm in Hx. now apply in_rev in Hx.
     + intros a b Hin. unfold hm in Hin. apply in_rev in Hin. split.
       * apply Hbnd. eapply in_combine_l; eauto.
       * apply in_combine_r in Hin. pose proof (incr_range _ _ _ _ Hinc Hin). lia.
+    + intros a b Hin. split; [eapply Pm4; eauto|]. apply Pm1 in Hin. lia.
+  - (* every reference inside a loaded holder is an archive index *)
+    cbn. intros q k v Hin.
+    destruct (heap_get_cases q HPL) as [E|Hqq]; [rewrite E in Hin; contradiction|].
+    destruct (Hm6 _ _ Hqq) as [r Hr].
+    destruct (Hm5 r q Hr) as [[]|(ol & Hol & Hrel)].
+    assert (ol = heap_get q HPL).
+    { symmetry. apply heap_get_in; [eapply incr_nodup; eauto|exact Hol]. }
+    subst ol. eapply holder_rel_ok; [exact Hrel| |exact Hin].
+    intros a b Hab. apply Pm1 in Hab. lia.
 Qed.
